@@ -18,7 +18,7 @@ import sys
 import time
 
 VERIF = os.path.dirname(os.path.dirname(os.path.abspath(__file__)))
-SCR = '/var/tmp/verif-scratch/selftest'
+SCR = '/var/tmp/verif-scratch/selftest-%d' % os.getpid()  # one scratch copy per invocation: several may run side by side
 
 
 def sh(cmd, cwd=None, env=None, timeout=7200):
@@ -95,6 +95,7 @@ def main():
             entry['checks'][prop] = dict(rc=rc, failed_obligations=failed, undecided=undec, wall_s=round(time.time() - t0),
                                          with_input=sum(1 for v in viol if 'no-failing-input-found' not in v), violations=len(viol))
             print('%-46s %s rc=%d failed=%s undecided=%s (%ds)' % (m['name'], prop, rc, ','.join(failed), ','.join(undec), time.time() - t0), flush=True)
+        results = json.load(open(respath)) if os.path.exists(respath) else {}  # merge with concurrent invocations
         results[m['name']] = entry
         json.dump(results, open(respath, 'w'), indent=1)
     shutil.rmtree(SCR, ignore_errors=True)
